@@ -68,12 +68,16 @@ class RemoteLogHandler(mlzlog.Handler):
             subscriptions = self.subscriptions[modname]
         except KeyError:
             return
+        levelname = LEVEL_NAMES.get(record.levelno, record.levelname.lower())
+        if not levelname.isidentifier():
+            # a level without name ('Level 45'): the name is part of the specifier, which
+            # must be one word. take the next lower known level
+            levelname = LEVEL_NAMES[max((lev for lev in LEVEL_NAMES if lev <= record.levelno and lev != OFF),
+                                        default=DEBUG)]
         for conn, lev in subscriptions.items():
             if record.levelno >= lev:
                 self.send_log(  # pylint: disable=not-callable
-                    conn, modname,
-                    LEVEL_NAMES.get(record.levelno, record.levelname.lower()),
-                    record.getMessage())
+                    conn, modname, levelname, record.getMessage())
 
     def set_conn_level(self, modname, conn, level):
         level = check_level(level)
